@@ -5,7 +5,8 @@ cd /verif
 export PATH=/opt/veriftools/go1.26.8/bin:$PATH GOFLAGS=-mod=mod GOPROXY=off GOSUMDB=off GOTOOLCHAIN=local
 BASE=e3dad1d
 for dir in "$@"; do
-  [ -f "$dir/patch.diff" ] || continue; pf="$dir/patch.diff"; [ -f "$dir/patch.orig.diff" ] && pf="$dir/patch.orig.diff"
+  pf=""; for c in patch.diff patch.missed.diff patch.neutralised.diff; do [ -z "$pf" ] && [ -f "$dir/$c" ] && pf="$dir/$c"; done
+  [ -n "$pf" ] || continue; [ -f "$dir/patch.orig.diff" ] && pf="$dir/patch.orig.diff"
   [ -f "$dir/confirmed.json" ] && continue
   BASE=e3dad1d; [ -f "$dir/base" ] && BASE=$(cat "$dir/base")
   wt=$(mktemp -d /tmp/cedarvc-seedwt-XXXXXX); rmdir $wt
